@@ -545,6 +545,10 @@ pub trait Driver: Sync + Send {
     fn cell_names(&self, _sh: &Self::Shared) -> HashMap<usize, String> {
         HashMap::new()
     }
+    /// Serialised driver (rebuilt by `--replay`).
+    fn spec(&self) -> Value {
+        Value::Null
+    }
 }
 
 type Job = Box<dyn FnOnce() + Send>;
@@ -754,7 +758,7 @@ pub fn explore<D: Driver + 'static>(driver: D, mode: Mode, max_execs: u64, worke
                     local.nodes += (x.nodes.len().saturating_sub(work.prefix.len())) as u64;
                     let names = driver.cell_names(&sh);
                     let replay_doc = |x: &Execution, detail: &str| {
-                        json!({"engine": "vsched", "driver": driver.name(), "mode": format!("{:?}", mode), "schedule": x.choices(), "preemptions": x.preemptions(),
+                        json!({"engine": "vsched", "driver": driver.name(), "driver_spec": driver.spec(), "mode": format!("{:?}", mode), "schedule": x.choices(), "preemptions": x.preemptions(),
                                "detail": detail, "calls": x.calls.iter().map(|c| c.show()).collect::<Vec<_>>(), "trace": x.trace_json(&names)})
                     };
                     match &x.abort {
@@ -787,6 +791,13 @@ pub fn explore<D: Driver + 'static>(driver: D, mode: Mode, max_execs: u64, worke
                                     local.outcomes.insert(class);
                                 }
                                 Err((sig, what)) => {
+                                    // determinism: the same schedule must fail the same way again
+                                    let (x2, sh2) = run_one(&driver, &pool, &x.choices(), &[], false, 4000);
+                                    let same_calls = x2.abort.is_none() && x2.calls.iter().map(|c| c.show()).collect::<Vec<_>>() == x.calls.iter().map(|c| c.show()).collect::<Vec<_>>();
+                                    let again = if same_calls { driver.check(&sh2, &x2).err().map(|e| e.0) } else { None };
+                                    if again.as_deref() != Some(sig.as_str()) {
+                                        local.machinery_error = Some(format!("replay of a failing schedule diverged in {} (first: {}, second: {:?} / abort {:?})", driver.name(), sig, again, x2.abort));
+                                    }
                                     local.violations.push((sig, format!("{}: {}", driver.name(), what.clone()), replay_doc(&x, &what)));
                                 }
                             }
@@ -1036,4 +1047,58 @@ pub fn fold_results(rep: &mut crate::Report, results: Vec<(String, Mode, Explore
         }
     }
     json!({"drivers_and_executions_per_mode": per_mode, "drivers_run_in_mode_B": fallbacks.len()})
+}
+
+
+/// `--replay` support shared by the E1 checks: rebuild the driver from the
+/// replay document, run the recorded schedule twice, print the trace and
+/// return the exit code (0 conforms, 1 violation reproduced, 2 diverged).
+pub fn replay_cli<D: Driver + 'static>(property: &str, path: &str, doc: &Value, build: impl Fn(&Value) -> Option<D>) -> i32 {
+    let spec = &doc["driver_spec"];
+    let schedule: Vec<usize> = doc["schedule"].as_array().map(|a| a.iter().filter_map(|v| v.as_u64().map(|x| x as usize)).collect()).unwrap_or_default();
+    let (d1, d2) = match (build(spec), build(spec)) {
+        (Some(a), Some(b)) => (a, b),
+        _ => {
+            eprintln!("replay file has no usable driver_spec");
+            return 2;
+        }
+    };
+    println!("driver: {}", d1.name());
+    println!("schedule ({} steps): {:?}", schedule.len(), schedule);
+    let (x1, x2, verdict) = replay_twice(d1, &schedule);
+    let names = {
+        let sh = d2.setup();
+        d2.cell_names(&sh)
+    };
+    for s in x1.trace_json(&names).as_array().cloned().unwrap_or_default() {
+        println!("  {:>3} T{} {:<18} {:<26} {:<18} {:<8} -> {}", s["step"], s["thread"], s["call"].as_str().unwrap_or("-"), s["op"].as_str().unwrap_or(""), s["cell"].as_str().unwrap_or(""), s["ord"].as_str().unwrap_or(""), s["result"].as_str().unwrap_or(""));
+    }
+    for c in &x1.calls {
+        println!("  call {}", c.show());
+    }
+    let same = x1.calls.iter().map(|c| c.show()).collect::<Vec<_>>() == x2.calls.iter().map(|c| c.show()).collect::<Vec<_>>() && x1.abort == x2.abort;
+    if !same {
+        eprintln!("replay diverged between two runs of the same schedule");
+        return 2;
+    }
+    match (&x1.abort, verdict) {
+        (Some(Abort::ReplayDivergence(m)), _) => {
+            eprintln!("the recorded schedule does not fit the code as it is now: {}", m);
+            2
+        }
+        (Some(a), _) => {
+            println!("execution aborted: {:?}", a);
+            println!("VIOLATION property={} replay={}", property, path);
+            1
+        }
+        (None, Err((sig, what))) => {
+            println!("{} [{}]", what, sig);
+            println!("VIOLATION property={} replay={}", property, path);
+            1
+        }
+        (None, Ok(class)) => {
+            println!("schedule conforms (outcome {})", class);
+            0
+        }
+    }
 }
